@@ -1,0 +1,103 @@
+/*
+ * myth_verif.h -- verification hooks (compiled in only with -DMYTH_VERIF).
+ *
+ * With MYTH_VERIF undefined every macro below expands to nothing, so the
+ * library is unchanged.  With it defined the macros call into an external
+ * verification runtime that serialises the workers at MYTH_VERIF_POINT /
+ * MYTH_VERIF_SPIN and records one event per MYTH_VERIF_EVn.
+ */
+#pragma once
+#ifndef MYTH_VERIF_H_
+#define MYTH_VERIF_H_
+
+#ifdef MYTH_VERIF
+#include <time.h>
+#ifdef __cplusplus
+extern "C" {
+#endif
+void myth_verif_worker(int rank);
+void myth_verif_regq(int rank, const void *q);
+int  myth_verif_qrank(const void *q);
+void myth_verif_point(int id);
+void myth_verif_spin(int id);
+void myth_verif_idle(void);
+void myth_verif_ev(const char *name, int n, ...);
+void myth_verif_evz(const char *name, int n, ...);
+void myth_verif_evlock(const char *name, const void *lock);
+long myth_verif_id(int ns, const void *p);
+long myth_verif_addr(const void *p);
+int  myth_verif_choose(int lo, int hi);
+int  myth_verif_clock(struct timespec *ts);
+int  myth_verif_active(void);
+void myth_verif_fpoint(const char *label);
+void myth_verif_fspin(const char *label);
+#ifdef __cplusplus
+}
+#endif
+/* id namespaces */
+#define MYTH_VERIF_NS_DESC  0
+#define MYTH_VERIF_NS_STACK 1
+#define MYTH_VERIF_NS_LOCK  2
+#define MYTH_VERIF_NS_SLEEPQ 3
+#define MYTH_VERIF_NS_MUTEX 4
+#define MYTH_VERIF_NS_COND  5
+#define MYTH_VERIF_NS_BARRIER 6
+#define MYTH_VERIF_NS_JC    7
+#define MYTH_VERIF_NS_UNCOND 8
+#define MYTH_VERIF_NS_ONCE  9
+#define MYTH_VERIF_NS_FELOCK 10
+#define VD(p) myth_verif_id(MYTH_VERIF_NS_DESC, (const void*)(p))
+#define VS(p) myth_verif_id(MYTH_VERIF_NS_STACK, (const void*)(p))
+#define VL(p) myth_verif_id(MYTH_VERIF_NS_LOCK, (const void*)(p))
+#define VSQ(p) myth_verif_id(MYTH_VERIF_NS_SLEEPQ, (const void*)(p))
+#define VO(ns, p) myth_verif_id((ns), (const void*)(p))
+#define VQ(q) ((long)myth_verif_qrank((const void*)(q)))
+#define VA(p) myth_verif_addr((const void*)(p))
+#define MYTH_VERIF_WORKER(r) myth_verif_worker(r)
+#define MYTH_VERIF_REGQ(r, q) myth_verif_regq((r), (q))
+#define MYTH_VERIF_POINT(id) myth_verif_point(id)
+#define MYTH_VERIF_SPIN(id) myth_verif_spin(id)
+#define MYTH_VERIF_IDLE() myth_verif_idle()
+#define MYTH_VERIF_EV0(n) myth_verif_ev(n, 0)
+#define MYTH_VERIF_EV1(n,a) myth_verif_ev(n, 1, (long)(a))
+#define MYTH_VERIF_EV2(n,a,b) myth_verif_ev(n, 2, (long)(a), (long)(b))
+#define MYTH_VERIF_EV3(n,a,b,c) myth_verif_ev(n, 3, (long)(a), (long)(b), (long)(c))
+#define MYTH_VERIF_EV4(n,a,b,c,d) myth_verif_ev(n, 4, (long)(a), (long)(b), (long)(c), (long)(d))
+#define MYTH_VERIF_EV5(n,a,b,c,d,e) myth_verif_ev(n, 5, (long)(a), (long)(b), (long)(c), (long)(d), (long)(e))
+#define MYTH_VERIF_EV6(n,a,b,c,d,e,f) myth_verif_ev(n, 6, (long)(a), (long)(b), (long)(c), (long)(d), (long)(e), (long)(f))
+/* like EV2, but dropped when the emitting worker is idle and the result is 0
+   (a failed pop/steal attempt of an idle scheduler loop changes nothing) */
+#define MYTH_VERIF_EVZ2(n,a,b) myth_verif_evz(n, 2, (long)(a), (long)(b))
+/* logged only for locks that were given an id with VL() (descriptor locks, user spin locks) */
+#define MYTH_VERIF_EVLOCK(n,l) myth_verif_evlock(n, (const void*)(l))
+#define MYTH_VERIF_CHOOSE(lo,hi) myth_verif_choose((lo),(hi))
+#define MYTH_VERIF_CLOCK(ts) myth_verif_clock(ts)
+#ifdef MYTH_VERIF_LEVEL_F
+#define MYTH_VERIF_FPOINT(l) myth_verif_fpoint(l)
+#define MYTH_VERIF_FSPIN(l) myth_verif_fspin(l)
+#else
+#define MYTH_VERIF_FPOINT(l) ((void)0)
+#define MYTH_VERIF_FSPIN(l) ((void)0)
+#endif
+#else  /* !MYTH_VERIF */
+#define MYTH_VERIF_WORKER(r) ((void)0)
+#define MYTH_VERIF_REGQ(r, q) ((void)0)
+#define MYTH_VERIF_POINT(id) ((void)0)
+#define MYTH_VERIF_SPIN(id) ((void)0)
+#define MYTH_VERIF_IDLE() ((void)0)
+#define MYTH_VERIF_EV0(n) ((void)0)
+#define MYTH_VERIF_EV1(n,a) ((void)0)
+#define MYTH_VERIF_EV2(n,a,b) ((void)0)
+#define MYTH_VERIF_EV3(n,a,b,c) ((void)0)
+#define MYTH_VERIF_EV4(n,a,b,c,d) ((void)0)
+#define MYTH_VERIF_EV5(n,a,b,c,d,e) ((void)0)
+#define MYTH_VERIF_EV6(n,a,b,c,d,e,f) ((void)0)
+#define MYTH_VERIF_EVZ2(n,a,b) ((void)0)
+#define MYTH_VERIF_EVLOCK(n,l) ((void)0)
+#define MYTH_VERIF_CHOOSE(lo,hi) (-1)
+#define MYTH_VERIF_CLOCK(ts) (0)
+#define MYTH_VERIF_FPOINT(l) ((void)0)
+#define MYTH_VERIF_FSPIN(l) ((void)0)
+#endif /* MYTH_VERIF */
+
+#endif /* MYTH_VERIF_H_ */
